@@ -483,6 +483,7 @@ def bulk_helpers(prog: Program, rep: Report):
              "getall_as_numpy / getall_as_tensor obtain their items from getall(dataset, item) and every return is that value "
              "or a conversion of it")
     rel = "kappadata/utils/getall_as_tensor.py"
+    prog = prog.keeping("getall")  # getall is the unit the three converters are compared against
     g = prog.func(rel, "getall")
     fa = fa_of(prog, g)
     rep.analysed_add("functions", f"{rel}:getall")
